@@ -39,6 +39,10 @@ type c15Scenario struct {
 	// short lines on which built-in handlers panic
 	Recover    bool `json:"recover"`
 	PanicLines []Q  `json:"panic_lines"`
+	// Late: "" or "bg"/"fg": the first foreground handler registers, from inside each of its invocations,
+	// one more handler of that kind for the same command (it removes itself after its first run). With
+	// a background one the event in flight may still reach it: it, too, gets a line of its own.
+	Late string `json:"late,omitempty"`
 }
 
 var c15PanicLines = []string{"PING", ":irc.server 433", ":irc.server CAP", ":irc.server 410 a", ":irc.server 908 a", ":me!ident@host NICK"}
@@ -97,6 +101,10 @@ func genC15(t *rapid.T) *c15Scenario {
 		// gets a line of its own)
 		nfg = rapid.SampledFrom([]int{64, 65, 66, 129, 200}).Draw(t, "crowd_fg")
 		nbg = rapid.SampledFrom([]int{0, 3, 65}).Draw(t, "crowd_bg")
+	}
+	sc.Late = rapid.SampledFrom([]string{"", "", "bg", "bg", "fg"}).Draw(t, "late")
+	if sc.Late != "" && rapid.Bool().Draw(t, "lone") {
+		nfg, nbg = 1, 0 // the event has a single handler when it is dispatched
 	}
 	for i := 0; i < nfg+nbg; i++ {
 		h := c15H{BG: i >= nfg, Scribble: rapid.Bool().Draw(t, "scribble"), Yields: rapid.SampledFrom([]int{0, 0, 1, 5, 50}).Draw(t, "yields")}
@@ -194,6 +202,44 @@ func runC15(sc *c15Scenario) *Violation {
 	var mu sync.Mutex
 	var recs []*c15Rec
 	cur := 0 // index of the event in flight (events are sent one at a time)
+	nlate := 0
+	registerLate := func(c *client.Conn, cmd string) {
+		var rem client.Remover
+		var once sync.Once
+		ready := make(chan struct{})
+		mu.Lock()
+		nlate++
+		id := -nlate
+		mu.Unlock()
+		f := client.HandlerFunc(func(c *client.Conn, l *client.Line) {
+			<-ready
+			once.Do(func() { rem.Remove() })
+			r := &c15Rec{h: id, first: deepCopyLine(l), nargs: len(l.Args), hasTags: l.Tags != nil, linePtr: reflect.ValueOf(l).Pointer(), orig: l, origArgs: l.Args, origTags: l.Tags}
+			if cap(l.Args) > 0 {
+				r.argsPtr = reflect.ValueOf(l.Args[:1]).Pointer()
+			}
+			if l.Tags != nil {
+				r.tagsPtr = reflect.ValueOf(l.Tags).Pointer()
+			}
+			mu.Lock()
+			r.ev = cur
+			recs = append(recs, r)
+			mu.Unlock()
+			for i := 0; i < 3; i++ {
+				runtime.Gosched()
+			}
+			sec := deepCopyLine(l)
+			mu.Lock()
+			r.second = sec
+			mu.Unlock()
+		})
+		if sc.Late == "bg" {
+			rem = c.HandleBG(cmd, f)
+		} else {
+			rem = c.Handle(cmd, f)
+		}
+		close(ready)
+	}
 	reg := map[string]bool{}
 	for _, ex := range expects {
 		cmd := ex.Cmd
@@ -215,6 +261,9 @@ func runC15(sc *c15Scenario) *Violation {
 				r.ev = cur
 				recs = append(recs, r)
 				mu.Unlock()
+				if hi == 0 && sc.Late != "" {
+					registerLate(c, cmd)
+				}
 				if h.Scribble {
 					for i := 0; i < h.Yields; i++ {
 						runtime.Gosched()
@@ -280,8 +329,14 @@ func runC15(sc *c15Scenario) *Violation {
 			}
 		}
 		mu.Unlock()
-		if len(mine) != len(sc.Handlers) {
-			return violationf("C15", "event %d (%q): %d handler invocations, want %d", ei, e.Raw, len(mine), len(sc.Handlers))
+		regular := 0
+		for _, r := range mine {
+			if r.h >= 0 {
+				regular++
+			}
+		}
+		if regular != len(sc.Handlers) {
+			return violationf("C15", "event %d (%q): %d handler invocations, want %d", ei, e.Raw, regular, len(sc.Handlers))
 		}
 		for _, r := range mine {
 			if v := checkLineAgainst("C15", r.first, e, fmt.Sprintf("event %d handler %d (on entry)", ei, r.h)); v != nil {
@@ -300,7 +355,7 @@ func runC15(sc *c15Scenario) *Violation {
 	defer mu.Unlock()
 	// a handler may keep its line (queue it for a worker, say): what it kept stays what it was given
 	for _, r := range recs {
-		if sc.Handlers[r.h].Scribble || sc.Handlers[r.h].Panic || r.ev >= len(expects) {
+		if r.h >= 0 && (sc.Handlers[r.h].Scribble || sc.Handlers[r.h].Panic) || r.ev >= len(expects) {
 			continue // (a panicking handler's line is scribbled over by this scenario's own Recover callback)
 		}
 		if v := checkLineAgainst("C15", r.orig, expects[r.ev], fmt.Sprintf("event %d handler %d: the *Line it was given, looked at again after all later events", r.ev, r.h)); v != nil {
@@ -326,7 +381,7 @@ func runC15(sc *c15Scenario) *Violation {
 }
 
 func TestC15(t *testing.T) {
-	col := evid.New("C15", "1..4 generated lines (C01 generator: with/without tags, 0..15 arguments, verbs with and without built-in handlers) delivered to 1..4 foreground + 0..3 background handlers that record a deep copy on entry, scribble over Args/Tags/fields at drawn moments, and look again; oracle: every recorded line equals the expected parse, no two invocations share *Line, Args array or Tags map; non-trivial = >=2 handlers and the line has an argument or tag; distinct by scenario")
+	col := evid.New("C15", "1..4 generated lines (C01 generator: with/without tags, 0..15 arguments, verbs with and without built-in handlers) delivered to 1..4 foreground + 0..3 background handlers that record a deep copy on entry, scribble over Args/Tags/fields at drawn moments, and look again; optionally the first handler registers one more handler (bg/fg) for the same command from inside each invocation, possibly as the event's only handler; oracle: every recorded line equals the expected parse, no two invocations share *Line, Args array or Tags map; non-trivial = >=2 handlers (or a late-registered one) and the line has an argument or tag; distinct by scenario")
 	defer finish(t, col)
 	rapid.Check(t, func(t *rapid.T) {
 		sc := genC15(t)
@@ -335,7 +390,7 @@ func TestC15(t *testing.T) {
 		var cls []string
 		for _, m := range sc.Events {
 			e := m.expect()
-			if len(sc.Handlers) >= 2 && (len(e.Args) > 0 || len(e.Tags) > 0) {
+			if (len(sc.Handlers) >= 2 || sc.Late != "") && (len(e.Args) > 0 || len(e.Tags) > 0) {
 				nt = true
 			}
 			if m.HasTags {
@@ -358,6 +413,12 @@ func TestC15(t *testing.T) {
 		}
 		if len(sc.PanicLines) > 0 {
 			cls = append(cls, "builtin_handler_panics")
+		}
+		if sc.Late != "" {
+			cls = append(cls, "late_registered_"+sc.Late)
+			if len(sc.Handlers) == 1 {
+				cls = append(cls, "lone_handler_registers_another")
+			}
 		}
 		b, _ := json.Marshal(sc)
 		col.Case(string(b), nt, uniqStrings(cls)...)
